@@ -25,6 +25,12 @@ import (
 	"verif.local/engine/vsync"
 )
 
+// c16QueueCap is the value check.json ("consts") gives udpMessageChanSize (1024 in the source) in
+// the harness build, so that "an open session's receive queue is exactly full when the connection
+// is lost" is an enumerable state (added after the independently seeded change C16-11, see the
+// scenario kill-with-open-udp-session).
+const c16QueueCap = 2
+
 type c16Sock struct {
 	*vnet.PacketConn
 	idx int
@@ -485,6 +491,98 @@ func c16Scenarios() []*explore.Scenario {
 			if fmt.Sprint(w.connected) != "[1 2]" {
 				e.Fail("connect counts %v, expected [1 2] (failed attempts must not count)", w.connected)
 			}
+			w.finalChecks(rc, false)
+			w.teardown(rc)
+		}},
+		{Name: "kill-with-open-udp-session(queue-fill 0..cap+1 x app-drains)", Quick: explore.Bounds{P: 1}, Thorough: q2, Body: func(e *vsched.Exec) {
+			// Dimension: the state of an OPEN UDP session of the application at the moment the
+			// connection is lost - its receive queue holds 0..cap datagrams (cap+1 sent = one
+			// dropped), with the application draining it (a reader blocked in Receive) or not
+			// (cost-free choices "udp-queue-fill", "app-drains"). udpMessageChanSize is shrunk to
+			// c16QueueCap by check.json ("consts") so that "exactly full" is enumerable. Clauses:
+			// once the loss has been observed (quiescence) the next UDP() reports a
+			// closed-connection error - it does not hang - and the call after it reconnects
+			// (config re-evaluated, one new socket, count 2, the dead socket closed).
+			// Added after the independently seeded change C16-11 (closeCleanup pushed an
+			// end-of-session marker into every open session's queue with a blocking send under the
+			// manager's lock: with a full unread queue the cleanup never finished and every later
+			// UDP() on that connection hung instead of returning ClosedError - no reconnect).
+			w := c16NewWorld(e)
+			w.serverUp()
+			rc, err := w.newRC(true)
+			if err != nil {
+				e.Fail("NewReconnectableClient: %v", err)
+				return
+			}
+			if udpMessageChanSize != c16QueueCap {
+				e.Fail("harness: udpMessageChanSize=%d, expected it scaled to %d by check.json consts", udpMessageChanSize, c16QueueCap)
+				return
+			}
+			fill := e.Choose(c16QueueCap+2, vsched.KFree, "udp-queue-fill")
+			drains := e.Choose(2, vsched.KFree, "app-drains") == 1
+			w.ev("fill=%d drains=%v", fill, drains)
+			var wg vsync.WaitGroup
+			wg.Add(1)
+			vsched.GoNamed("caller", func() {
+				defer wg.Done()
+				w.ev("call UDP (session kept open)")
+				u, err := rc.UDP()
+				w.ev("ret UDP %v", c16ErrClass(err))
+				if err != nil {
+					e.Fail("first UDP(): %v", err)
+					return
+				}
+				got, readerDone := 0, false
+				drainAll := func() {
+					for {
+						if _, _, err := u.Receive(); err != nil {
+							return
+						}
+						got++
+					}
+				}
+				if drains {
+					wg.Add(1)
+					vsched.GoNamed("reader", func() {
+						defer wg.Done()
+						drainAll()
+						readerDone = true
+					})
+				}
+				// the server sends fill datagrams to the session
+				conns := vquic.GetNet(e).Conns
+				srv := conns[len(conns)-1].Peer()
+				buf := make([]byte, 64)
+				for i := 0; i < fill; i++ {
+					m := &protocol.UDPMessage{SessionID: u.(*udpConn).ID, FragCount: 1, Addr: "d:53", Data: []byte{byte(i)}}
+					if err := srv.SendDatagram(buf[:m.Serialize(buf)]); err != nil {
+						e.Fail("server SendDatagram: %v", err)
+					}
+				}
+				w.killCurrent()
+				e.WaitIdle() // the loss has been observed by everything that watches the connection
+				if r := w.call(rc, "UDP"); c16ErrClass(r.Err) != "ClosedError" {
+					e.Fail("UDP() after the connection was lost (open session, %d datagrams sent to a queue of %d, app drains=%v): got %s (%v), want a closed-connection error", fill, c16QueueCap, drains, c16ErrClass(r.Err), r.Err)
+				}
+				if r := w.call(rc, "UDP"); r.Err != nil {
+					e.Fail("the call after the closed-connection error did not reconnect: %v", r.Err)
+				}
+				if len(w.socks) != 2 || w.cfgCalls != 2 || fmt.Sprint(w.connected) != "[1 2]" {
+					e.Fail("reconnect after loss with an open UDP session: configFunc=%d factory.New=%d connected=%v, want 2, 2, [1 2]", w.cfgCalls, len(w.socks), w.connected)
+				}
+				// the old session ends for the application (observation only: what it delivered)
+				if !drains {
+					drainAll()
+				} else {
+					e.WaitIdle()
+					if !readerDone {
+						e.Fail("the application's Receive on the session of the lost connection never returned")
+					}
+				}
+				w.ev("old session delivered %d", got)
+				_ = u.Close()
+			})
+			wg.Wait()
 			w.finalChecks(rc, false)
 			w.teardown(rc)
 		}},
